@@ -389,6 +389,9 @@ def act_code(W, ev):
 
 def enc_event(W, ev):
     aid = ev.asset_id - W.base if ev.asset_id > 0 else ev.asset_id
+    if getattr(W, 'reduced', False):
+        # comparisons between differently split runs: event numbers and weights are not comparable, the rest is
+        return [to_ticks(ev.time), to_ticks(ev.event_type, PRIO), aid] + act_code(W, ev) + [1 if ev.cancelled else 0]
     return [ev._verif_eid, to_ticks(ev.time), to_ticks(ev.event_type, PRIO), int(round(ev.random_weight * common.WDEN)), aid] \
         + act_code(W, ev) + [1 if ev.cancelled else 0]
 
@@ -458,12 +461,15 @@ def enc_data(W, label, sub, dp):
     return [lab, sid, 4, to_ticks(dp[0]), W.names[dp[1]], -1 if dp[2] is None else dp[2], -1 if dp[3] is None else dp[3]]
 
 
-def run_impl(sc):
+def run_impl(sc, weights='patch', split=False, reduced=False):
+    """weights: 'patch' (the deterministic source shared with the model), 'skipterm' (same, but run() markers do not consume a
+    weight: tie-break choices held fixed across differently split runs) or 'seeded' (the real generator after random.seed).
+    split: every run(d) is executed as run(d // 2) followed by run(d - d // 2).  reduced: see enc_event."""
     from simprocesd.model import EventType
     from simprocesd.model import resource_manager as rmmod
     from simprocesd.model.factory_floor import maintainer as mmod
     flat, obs = [], []
-    with common.WeightPatch(sc['seed'], sc['mod']):
+    with common.WeightPatch(sc['seed'], sc['mod'], mode=weights):
         orig_rr_init = rmmod.ReservedResources.__init__
         orig_wo_init = mmod._WorkOrder.__init__
         res_objs, wos = [], []
@@ -492,6 +498,7 @@ def run_impl(sc):
         try:
             with contextlib.redirect_stdout(io.StringIO()):
                 W = build(sc)
+            W.reduced = reduced
             W.res_objs = res_objs
             W.names = {o.name: i for i, o in W.objs.items()}
             W.names.update({m.name + '#%d' % i: i for i, m in W.maints.items()})
@@ -534,7 +541,11 @@ def run_impl(sc):
                         elif k == 'step':
                             env.step()
                         elif k == 'run':
-                            env.run(x[1] / TICK)
+                            if split and x[1] >= 2:
+                                env.run((x[1] // 2) / TICK)
+                                env.run((x[1] - x[1] // 2) / TICK)
+                            else:
+                                env.run(x[1] / TICK)
                         elif k == 'at':
                             env.schedule_event(x[1] / TICK, -5, make_user(x[2]), x[3] / PRIO)
                         elif k == 'now':
